@@ -7,6 +7,7 @@ from vlib import cgen, pgen, ref
 from vlib.harness import SubCheck, must, require
 
 PROPERTY_ID = "C15"
+# (exact_wide: registers of 9-11 qubits through a state-vector reference)
 TECHNIQUE = 'property-based testing (Hypothesis) of task lists against closed-form expected values and a numpy quadratic-form reference'
 RULE = (
     "Task lists of 0..8 estimation tasks in drawn order, each measurable (Ising sum with >= 1 "
